@@ -56,17 +56,20 @@ ToStr(d, v) ==
     [] v.t = "num" -> NumToStr(v.v)
     [] v.t = "bool" -> IF v.v THEN <<"t", "r", "u", "e">> ELSE <<"f", "a", "l", "s", "e">>
     [] v.t = "str" -> v.v
+    [] v.t = "numstr" -> UnkStr         \* the spelling is not determined, only its obligations
 ToNum(d, v) ==
   CASE v.t = "ns" -> StrToNum(ToStr(d, v))
     [] v.t = "num" -> v.v
     [] v.t = "bool" -> IF v.v THEN NInt(1) ELSE NInt(0)
     [] v.t = "str" -> StrToNum(v.v)
+    [] v.t = "numstr" -> v.v            \* it reads back to the same double
 \* boolean() as a value (may be "unk")
 ToBoolV(d, v) ==
   CASE v.t = "ns" -> BoolV(v.v # {})
     [] v.t = "num" -> IF IsUnk(v.v) THEN Err("unk") ELSE BoolV(NumTrue(v.v))
     [] v.t = "bool" -> v
     [] v.t = "str" -> IF IsUnkStr(v.v) THEN Err("unk") ELSE BoolV(v.v # <<>>)
+    [] v.t = "numstr" -> BoolV(TRUE)
 StrOrErr(s) == IF IsUnkStr(s) THEN Err("unk") ELSE StrV(s)
 NumOrErr(a) == IF IsUnk(a) THEN Err("unk") ELSE NumV(a)
 
@@ -81,7 +84,9 @@ NumCmpOp(op, a, b) == LET c == Cmp(a, b) IN
     [] op = "gt" -> c = 1
     [] op = "ge" -> c \in {0, 1}
 \* atomic comparison of two non-node-set values
-CmpAtoms(d, op, l, r) ==
+CmpAtoms(d, op, l0, r0) ==
+  LET l == IF l0.t = "numstr" THEN StrV(UnkStr) ELSE l0
+      r == IF r0.t = "numstr" THEN StrV(UnkStr) ELSE r0 IN
   IF op \in {"eq", "ne"} THEN
     IF l.t = "bool" \/ r.t = "bool" THEN
       LET a == ToBoolV(d, l) b == ToBoolV(d, r) IN
@@ -229,7 +234,12 @@ CallBuiltin(d, env, name, args, ctx) ==
     [] name = <<"n","a","m","e">> ->
          IF n > 1 THEN Bad ELSE LET s == IF n = 1 THEN A(1) ELSE CtxNS(ctx) IN
          IF s.t # "ns" THEN Bad ELSE StrV(IF s.v = {} THEN <<>> ELSE ExpandedName(d, MinOf(s.v)))
-    [] name = <<"s","t","r","i","n","g">> -> IF n > 1 THEN Bad ELSE StrOrErr(S1)
+    [] name = <<"s","t","r","i","n","g">> ->
+         IF n > 1 THEN Bad
+         \* for a number beyond the digit-exact range the specification states the obligation instead of the spelling:
+         \* decimal notation without exponent that reads back to the same double, integers without a point
+         ELSE IF n = 1 /\ A(1).t = "num" /\ A(1).v.c = "pow2" THEN [t |-> "numstr", v |-> A(1).v]
+         ELSE StrOrErr(S1)
     [] name = <<"c","o","n","c","a","t">> ->
          IF n < 2 THEN Bad ELSE StrOrErr(Flatten([i \in 1..n |-> ToStr(d, A(i))]))
     [] name = <<"s","t","a","r","t","s","-","w","i","t","h">> ->
